@@ -11,7 +11,9 @@ def C(cat, tech, text, note, ref):
 STRUCT = ('Decides structural necessary conditions of the property on every path of the anchored code (for every input, schedule '
           'and history); the numeric/trajectory clauses listed in DESIGN.md section 4 are NOT decided by this check. The tree is first '
           'normalised (new helpers inlined, new locals/constants substituted where that is an equivalence - DESIGN.md 16.1) and every '
-          'resolved call site of the anchored files is checked for arguments passed in the position of another parameter (T-ARGROLE). ')
+          'resolved call site of the anchored files is checked for arguments passed in the position of another parameter (T-ARGROLE); '
+          'every memo field that is new relative to the reference tree must be cleared by every method that changes one of its inputs '
+          'and must not keep a view of an argument as its key (T-MEMO, DESIGN.md 12.3). ')
 
 CLAIMS = {
  'C01': C('other', 'formula/factor extraction with local inlining, dominator analysis, ownership with view-alias tracking, must-precede dataflow',
@@ -26,7 +28,7 @@ CLAIMS = {
  'C04': C('other', 'slice typing of the flux form, boundary-table matching, symbolic execution of setup() under the is-setup flag, ownership',
    STRUCT + 'Here: the rate is the negative first difference of one face array over a constant cell width (telescoping identity), end faces are written last from the boundary table by element name, setup() writes and records nothing once the model is set up (no drift over repeated solve calls), compositions are clipped before recording, and model constructors share no mutable defaults.',
    'The conserved sums in floating point and the homogenization flux-frame numerics are not decided.', '4/C04'),
- 'C05': C('proof', 'abstract interpretation over a finite order domain (exhaustive NaN/inf/ordering scenarios) + typestate over the loop-body CFG',
+ 'C05': C('proof', 'abstract interpretation over a finite order domain (exhaustive NaN/inf/ordering scenarios) + typestate over the loop-body CFG, loop-exit completeness (no exit besides end time / stop), container-type preservation of the default unflatten, running-sum cursor idiom',
    'Decides the step/clock/stop protocol of the generic solver on all paths: the dt clamp is interpreted for every ordering scenario of (proposal, lower, upper) incl. NaN, +-inf, zero, negative and lower>upper; the loop body of DESolver.solve is checked as a typestate (upper bound limited to remaining time, one iterator call, one clock update by the returned dt, one postProcess defining stop); built-in iterators return the dt unmodified; unflatten cursors advance by exactly what they read and the Coupler records sizes on every flatten. From these the time contract follows over the reals for every model.',
    'Real arithmetic for the clock (floating-point exactness of the last step and termination with minDtFrac=0 are not decided); user-supplied iterators and shape preservation beyond the cursor rule are not decided; trusted: Python ast, kverif engines.', '4/C05'),
  'C06': C('proof', 'symbolic extraction of the Butcher tableau from the AST + exact rational order conditions; alias/purity analysis with opaque callables',
@@ -50,7 +52,7 @@ CLAIMS = {
  'C13': C('other', 'symbolic execution of constructor vs setter (path-wise equality), typestate of the refresh rule, evaluation-site def-use, sibling agreement',
    STRUCT + 'Here: constructor and setter of TemperatureParameters leave the same flag/parameters on every argument shape, the three setters set the isothermal flag, the accumulated temperature change is incremented before the test and (rebuild <=> reset) on every path with the current temperature, the accumulator is zeroed nowhere else without a full rebuild, every stored temperature is the schedule at the time stored in the same record (time written => temperature written), both schedule classes interpolate t/3600.',
    'Closeness of tabulated compositions to an independent evaluation is not decided.', '4/C13'),
- 'C14': C('other', 'cache-freshness by symbolic execution of all methods (caches discovered from lazy-property idiom), exact sympy identities on extracted formulas incl. sibling agreement of the barrier at a clamped radius, mask structure, index agreement of per-phase moments, shared-state rule (T-SHARED)',
+ 'C14': C('other', 'cache-freshness by symbolic execution of all methods (caches discovered from lazy-property idiom), exact sympy identities on extracted formulas incl. sibling agreement of the barrier at a clamped radius, mask structure, index agreement of per-phase moments, shared-state rule (T-SHARED), one-sided comparison agreement between the factor evaluator and the ratio validator (contradiction rule) and between the sign tests of the driving force',
    STRUCT + 'Here: every lazily cached factor is None after any write of gamma/gbEnergy/site type; area - 2k*removed - 3*volume == 0, the k=0 limits and the reduction of Rcrit/Gcrit to the classical values are exact identities of the extracted formulas; outputs are zero-initialised and written only under the positive-driving-force / non-zero masks; occupied sites are summed over all phases of the same site type and returned through max(.,0).',
    'Finiteness, monotonicity in dG and k and the incubation factor range are not decided. F25 (boundary-site barrier negative at a radius raised to the minimum radius) is a recorded known finding: its one-line repair changes a value pinned by an existing test.', '4/C14'),
  'C15': C('other', 'alias/purity analysis, exact sympy identities and one-sided limits on extracted closed forms, dtype rule, derived-state rule, mode-flag must-assign analysis (T-MODEFLAG), path analysis of the bisection loop',
@@ -59,13 +61,13 @@ CLAIMS = {
  'C16': C('other', 'derived-state freshness by symbolic execution, literal evaluation of quadrature tables with exact trigonometry, exact replay of modulus conversions, non-commutative operator normal forms, tensor-index bookkeeping of the rotations, degree-of-homogeneity inference for the Eshelby integral, weight typing of the 6x6 (Voigt) forms, shared class-level state rule (T-SHARED)',
    STRUCT + 'Here: the rotated tensors are recomputed after every write of a rotation/stiffness (order independence); quadrature weights sum to 1 with the orbit multiplicities, point counts are the documented ones and the closed A-orbits are the octahedral orbits, the C-orbit generator/table contract holds (known finding F21: it does not); all 15 modulus conversions reproduce (E,nu,G); Voigt maps are inverse tables; fourth-rank and 6x6 energy routines are the same operator expression; Dijkl is homogeneous of degree 0 in the radii (every sum adds terms of equal degree); every contraction of 6x6 / 6-vector forms pairs a plain axis with a shear-weighted one (necessary for the 6x6 = fourth-rank clause and for the homogeneous-inclusion limit).',
    'Positivity, rotation invariance and closed forms are not decided (of the scaling laws only the degree of homogeneity of the Eshelby integral is). F21 (Lebedev orbits) is a recorded known finding: its repair changes values pinned by 3 existing tests.', '4/C16'),
- 'C17': C('other', 'taint rule for phase addressing, must-analysis of the fallback to the database phase list, guarded position lookups (T-NAMEINDEX), symmetric-axis rule, dispatch tables decided by symbolic execution, must-pass-through of post-processing on the loop-body CFG, formula shape with the phase sum as opaque linear operator, purity',
+ 'C17': C('other', 'taint rule for phase addressing, must-analysis of the fallback to the database phase list, guarded position lookups (T-NAMEINDEX), symmetric-axis rule, dispatch tables decided by symbolic execution, must-pass-through of post-processing on the loop-body CFG, formula shape with the phase sum as opaque linear operator, purity, argument purity of the post-process functions (cached record), index-space agreement of argmax over masked selections',
    STRUCT + 'Here: rows of the per-stable-phase arrays are never selected by a position in the database phase list and the stable phase names travel with the arrays; averaging rules consume the phase axis only by reductions; keyword/id/function registries are total and map to namesakes; Wiener/labyrinth/Hashin-Shtrikman have the stated form with the sum taken before the non-linear map; averaging rules do not write into the cached arrays.',
    'Ordering of the bounds and their values are not decided.', '4/C17'),
  'C18': C('other', 'sibling sanitising rule, symbolic execution of history growth, must-precede and must-pass-through dataflow on the CFG (solve before every normal exit), formula/prefactor agreement, purity',
    STRUCT + 'Here: weak/strong/Orowan arrays pass the same negative|non-finite mask; each strength history grows by exactly one entry per host step on every path and the host updates coupled models once per step after its record; grain growth is solved over exactly the host step; strength = M*min(weak,strong,Orowan) without rescaling its arguments; Zener drag carries the growth-law prefactor and freezes the band.',
    'Positivity/monotonicity of the individual formulas and grain-volume conservation are not decided.', '4/C18'),
- 'C19': C('other', 'attribute-protocol check against the class hierarchy, symbolic execution of the latch, product of the or/and fold (transfer function tabulated over a finite domain) with the specification automaton, class-specialised method views, path rule for the interpolated crossing time, table rules, solver typestate',
+ 'C19': C('other', 'attribute-protocol check against the class hierarchy, symbolic execution of the latch, product of the or/and fold (transfer function tabulated over a finite domain) with the specification automaton, class-specialised method views, path rule for the interpolated crossing time, table rules, solver typestate, no replacement of the interpolated time under tolerance tests (symbolic paths)',
    'The stopping protocol is shape and is decided on all paths: every attribute a condition reads exists on the host, a met condition is never re-evaluated and its time is written with the transition only (exact interpolation formula, stored only on paths where the condition was tested at the previous step and not met), every registered condition is polled on every step and the stop flag equals (any or-condition met) or (some and-condition and all of them met) for registries of every length (reachable states of the fold explored in product with the specification automaton), each condition reads the history of its name with the selection it was given, the solver ends on the returned flag, the TTP calculator resets before every run.',
    'That the interpolated crossing time lies inside the step is numeric and not decided.', '4/C19'),
  'C20': C('other', 'delegation/forwarding agreement, save/load key-table agreement per class (super chain and class-level tables resolved), row-preservation dataflow from the stored training data to the kernel, symbolic column-interval agreement of the curvature pack/unpack layout, symbolic execution of toDict under present/absent recordings, must-analysis of key presence on the CFG, JSON/ndarray type agreement of the refit path, argument-normalisation rule of the getters, protocol check',
@@ -95,7 +97,7 @@ def main():
             'engine': 'kverif',
             'level_claimed': {'category': c['cat'], 'text': c['text'], 'design_ref': f'DESIGN.md section {c["ref"]}'},
             'level_note': c['note'],
-            'technique': 'static analysis: ' + c['tech'],
+            'technique': 'static analysis: ' + c['tech'] + '; writer/invalidator and may-alias analysis of new memo fields (T-MEMO)',
         })
     na = []
     for pid in ALL:
